@@ -1,8 +1,9 @@
 import OW.Kernels.Basic
+import OW.Kernels.Climate
 /- Kernel models of group Climate (one owner; see /verif/AGENTS.md). Add imports above and entries to `models`. -/
 namespace OW.Kernels.Groups.Climate
 open OW
 
-def models {α} [Num α] : List (KModel α) := [ ]
+def models {α} [Num α] : List (KModel α) := [ Kernels.Climate.model ]
 
 end OW.Kernels.Groups.Climate
